@@ -1,6 +1,7 @@
 package main
 
 import (
+	"fmt"
 	"go/ast"
 	"strings"
 
@@ -84,6 +85,68 @@ func runC43(c *eng.Ctx) {
 		}
 		return true
 	})
-	c.Check("R3", cb.Where(), "every use of scaleDown is the count of an arithmetic right shift of a bucket index (same rounding in the loop, the first offset and the final flush)", bad == "" && n >= 4, bad, "")
+	c.Check("R3", cb.Where(), "every use of scaleDown is the count of an arithmetic right shift of a bucket index (same rounding in the loop, the first offset and the final flush)", bad == "" && n >= 3, bad, "")
 	c.CallersSubset("R3", P+"convertBucketsLayout", 3, P+"exponentialToNativeHistogram", P+"explicitHistogramToCustomBucketsHistogram")
+	// ---- R4 merging of source buckets into one target bucket: the merge test follows the running count ----
+	// `count` accumulates the source buckets of one target bucket; the test "does the next source bucket fall into the
+	// same target bucket" must compare with the index count is accumulating for.  Whenever count is restarted for a new
+	// target bucket, that index is updated in the same block (finding F12/F26).
+	{
+		var loop *ast.RangeStmt
+		ast.Inspect(cb.Body, func(n ast.Node) bool {
+			if rs, ok := n.(*ast.RangeStmt); ok && strings.Contains(nodeText(rs.Body), "nextBucketIdx :=") && loop == nil {
+				loop = rs
+			}
+			return true
+		})
+		mergeVar := ""
+		if loop != nil {
+			for _, st := range loop.Body.List {
+				if is, ok := st.(*ast.IfStmt); ok {
+					if be, ok := is.Cond.(*ast.BinaryExpr); ok && be.Op.String() == "==" && nodeText(be.Y) == "nextBucketIdx" && strings.Contains(nodeText(is.Body), "count += int64(bucketCounts[i])") {
+						mergeVar = nodeText(be.X)
+					}
+					break
+				}
+			}
+		}
+		c.Check("R4", cb.Where(), "the loop merges a source bucket into the running count when its target index equals a tracked index", mergeVar != "", p.Pos(cb.Body.Pos()), mergeVar)
+		restart := eng.Node("count = int64(bucketCounts[i])", func(g *eng.Graph, n ast.Node) bool { return nodeText(n) == "count = int64(bucketCounts[i])" })
+		cb.Has("R4", restart, 2)
+		cb.Only("R4", restart, "restarts the count for a new target bucket together with the index the merge test reads", func(l eng.Loc) bool {
+			for _, u := range cb.Find(eng.Node(mergeVar+" = nextBucketIdx", func(g *eng.Graph, n ast.Node) bool { return nodeText(n) == mergeVar+" = nextBucketIdx" })) {
+				if u.Blk == l.Blk {
+					return true
+				}
+			}
+			return false
+		})
+	}
+	// ---- R5 (added for seed C43-b) a span's offset is fixed when the span is created ----
+	{
+		overwritten := 0
+		pos := ""
+		ast.Inspect(cb.Body, func(n ast.Node) bool {
+			as, ok := n.(*ast.AssignStmt)
+			if !ok || as.Tok.String() != "=" {
+				return true
+			}
+			for _, l := range as.Lhs {
+				if se, ok := l.(*ast.SelectorExpr); ok && se.Sel.Name == "Offset" {
+					overwritten++
+					pos = p.Pos(as.Pos())
+				}
+			}
+			return true
+		})
+		c.Check("R5", cb.Where(), "no statement overwrites the Offset of an existing span (offsets are given in the literal that creates the span; the first span carries the absolute start index)", overwritten == 0, pos, "")
+		ls := cb.LitTexts("model/histogram:Span")
+		okl := len(ls) >= 3
+		for _, m := range ls {
+			if m["Offset"] != "gap" && m["Offset"] != "initialOffset" {
+				okl = false
+			}
+		}
+		c.Check("R5", cb.Where(), "every span is created with the gap to the previous bucket (or the initial offset) as its offset", okl, p.Pos(cb.Body.Pos()), fmt.Sprint(len(ls)))
+	}
 }
